@@ -924,7 +924,13 @@ def pretty_print_merge_decision(base, decision, config=DefaultConfig):
         else:
             note = ""
 
-        if diff:
+        if diff and dkey == "similar_insert":
+            # This diff goes from the locally to the remotely inserted items,
+            # it cannot be shown as a diff of base:
+            config.out.write("%s%s%s:%s\n" % (
+                config.INFO.replace("##", "---"), dkey, note, config.RESET))
+            pretty_print_value(diff, prefix, config)
+        elif diff:
             config.out.write("%s%s%s:%s\n" % (
                 config.INFO.replace("##", "---"), dkey, note, config.RESET))
             value = base
